@@ -91,6 +91,13 @@ def run_iso(ctx, binp, items, label):
         if why is None:
             st['noisy'] += 1
             continue
+        if r.get('hairline', 0) > 0 and r.get('crossing') and r['max'] <= 160 and 2 * r['n32'] <= max(1, r['nonblank']):
+            # tiny-skia rasterises strokes of device width <= 1 px with its hairline code, whose result depends on the clip
+            # rectangle when the line crosses it (half a pixel of displacement along a long line); width 1.01 is bit-identical
+            st['hairline_clip'] = st.get('hairline_clip', 0) + 1
+            ctx.known_or_violation('hairline-clip', "%s: %s [mode %s, view %s]" % (label, why, m, c),
+                                   dict(op='c14-iso', doc=d, mode=m, seed=s, cfg=c, result=r))
+            continue
         if r.get('ulp_flip'):
             st['ulp_flip'] = st.get('ulp_flip', 0) + 1
             ctx.known_or_violation('filter-region-ulp', "%s: %s [mode %s, view %s]" % (label, why, m, c),
@@ -251,6 +258,10 @@ def run(ctx):
     for k in range(400 if quick else 4000):
         xitems.append((rc.gen_extent_doc(rng), rng.choice(['root', 'all', 'nest2']), rng.below(1 << 30) + 1,
                        "fit:%s:%s:%s" % (rng.choice([0.5, 1, 1, 2, 3]), rng.choice(FRACS), rng.choice(FRACS))))
+    # cap-only dots in kept child groups: the document size is the canvas (the root box itself may be what is wrong)
+    for k in range(120 if quick else 1200):
+        xitems.append((rc.gen_dot_doc(rng), rng.choice(['root', 'all']), rng.below(1 << 30) + 1,
+                       "native:%s:%s:%s" % (rng.choice([0.5, 1, 3]), rng.choice([0, 0.37]), rng.choice([0, 0.13]))))
     st = run_iso(ctx, binp, xitems, "e2e-C14 extents")
     stats['extents'] = st
     ctx.log("e2e-C14 extents: %s" % st)
@@ -262,6 +273,36 @@ def run(ctx):
     st = run_iso(ctx, binp, mitems, "e2e-C14 miter tips")
     stats['miter_tips'] = st
     ctx.log("e2e-C14 miter tips: %s" % st)
+    # tiny content (sub-pixel .. 3 px on the device) at root scales 0.5 and 1: a layer must not drop it (seeded change C14-9).
+    # Strict rule: with so few pixels there is no room for the statistical one - the isolated rendering must paint
+    # something whenever the direct one does, and no pixel may differ by more than 64 levels (HEAD: a 1-row shape loses one of
+    # tiny-skia's four AA sub-scanlines in the smaller pixmap: alpha 128,192 -> 96,144, i.e. <= 48 levels).
+    titems = [(rc.gen_tiny_doc(rng), rng.choice(['root', 'all', 'nest2']), rng.below(1 << 30) + 1,
+               "fit:%s:%s:%s" % (rng.choice([0.5, 0.5, 1]), rng.choice([0, 0.37, 0.5]), rng.choice([0, 0.13, 0.5]))) for _ in range(200 if quick else 2000)]
+    touts = ctx.rvh_batch(binp, 'c14-iso', ["-\t%s\t%s\t%d\t%s" % it for it in titems])
+    tst = dict(cases=0, identical=0, vanished=0, differ=0)
+    for it, o in zip(titems, touts):
+        try:
+            r = json.loads(o)
+        except (TypeError, ValueError):
+            r = {}
+        if 'n1' not in r:
+            continue
+        tst['cases'] += 1
+        ctx.note_case("tiny/%s/%s/%s" % (it[0][:200], it[1], it[3]), nontrivial=r.get('nbA', 0) > 0)
+        if r['n0'] == 0:
+            tst['identical'] += 1
+            continue
+        gone = r.get('nbA', 0) > 0 and r.get('nbB', 0) == 0
+        if gone or r['n64'] > 0:
+            tst['vanished' if gone else 'differ'] += 1
+            if tst['vanished'] + tst['differ'] <= 3:
+                ctx.violation("e2e-C14 tiny content: %s [mode %s, view %s]" % (
+                    "the content vanishes when a layer is forced (%d pixels painted directly, none through the layer)" % r['nbA'] if gone
+                    else "%d pixels differ by more than 64 levels (max %d)" % (r['n64'], r['max']), it[1], it[3]),
+                    dict(op='c14-iso', doc=it[0], mode=it[1], seed=it[2], cfg=it[3], result=r))
+    stats['tiny'] = dict(tst, cases=tst['cases'])
+    ctx.log("e2e-C14 tiny content: %s" % tst)
     ctx.add_sample(dict(op='c14-iso', doc=items[0][0], mode=items[0][1], cfg=items[0][3]))
     ctx.add_sample(dict(op='c14-iso', doc='@' + files[len(files) // 3], mode='all', cfg='fit:1:0.37:0.61'))
     ctx.cov['e2e'] = stats
